@@ -12,7 +12,8 @@ Theorems: `C19_table_watson_crick`, `C19_table_involution`, `C19_table_eq` (fini
 `C19_second_strand` (what that means residue by residue and edge by edge), `C19_reject`,
 `C19_involutive`, `C19_involutive_model`, `C19_spec_defined_iff`, `C19_labels_literal`;
 for residue graphs whose node keys start at any `k0` (`.json` input): `C19_complement_offset`,
-`C19_reject_offset`, `C19_offset_zero`, `C19_key_shift_equivariant`.
+`C19_reject_offset`, `C19_offset_zero`, `C19_key_shift_equivariant`; for the `gen_params -dsdna` pipeline
+(strand from `-seq` or `-seqf`): `C19_gen_params_dsdna`.
 The model (`Model/Dna.lean`) is tied to the real code by the correspondence in `harness/c19.py`.
 
 Property theorems only (helper lemmas live in Proofs/).  Each theorem is followed by a non-vacuity
@@ -267,5 +268,35 @@ theorem C19_key_shift_equivariant (g : RGraph) (k : Nat) :
 
 example : (strandGraph ["DA", "DC", "DG"] [] (some [])).shiftKeys 4 = strandGraphFrom 4 ["DA", "DC", "DG"] [] (some []) := by
   decide
+
+/-! ### the `gen_params … -dsdna` pipeline (`gen_itp.py`) -/
+
+/-- **`-dsdna` completes the strand whichever way it was given.**  For the model of `gen_params` up to
+`MapToMolecule` (`genParamsDsdna`: strand from `-seq` *or* from `-seqf`, then
+`if dsdna: complement_dsDNA`), for every strand of `n ≥ 1` known residues: with `dsdna = true` the residue
+graph handed to `MapToMolecule` has the `2n` residue names `names ++ map comp (reverse names)` (Watson–Crick
+`comp` of the property) in node order — for BOTH sources; with `dsdna = false` it has the names `names`. -/
+theorem C19_gen_params_dsdna (inp : SeqInput)
+    (hn : 1 ≤ inp.names.length) (hc : inp.circ.isSome → 3 ≤ inp.names.length)
+    (hk : ∀ nm ∈ inp.names, (lookup Tables.baseLibrary nm).isSome) :
+    (∃ g, genParamsDsdna Tables.baseLibrary inp true = .ok g ∧
+        g.nodes.map (fun x => some x.resname) =
+          inp.names.map some ++ inp.names.reverse.map (lookup watsonCrick)) ∧
+    (∃ g, genParamsDsdna Tables.baseLibrary inp false = .ok g ∧ g.nodes.map (·.resname) = inp.names) := by
+  obtain ⟨⟨g, h1, h2⟩, h3⟩ := Proofs.Dna.genParams_dsdna Tables.baseLibrary inp hn hc hk
+  refine ⟨⟨g, h1, ?_⟩, h3⟩
+  rw [h2, List.map_congr_left (fun nm _ => C19_table_eq nm)]
+
+example := C19_gen_params_dsdna (.seq ["DA5", "DC", "DG3"]) (by decide) (by decide) (by decide)
+example := C19_gen_params_dsdna (.seqFile 4 ["DA", "DC", "DG", "DT"] [] (some [("linktype", "circle")]))
+  (by decide) (by decide) (by decide)
+
+-- by evaluation (tests): both sources, with and without the flag
+example : ((genParamsDsdna Tables.baseLibrary (.seq ["DA5", "DC", "DG3"]) true).toOption.map
+    (·.nodes.map (·.resname))) = some ["DA5", "DC", "DG3", "DC5", "DG", "DT3"] := by decide
+example : ((genParamsDsdna Tables.baseLibrary (.seqFile 1 ["DA5", "DC", "DG3"] [] none) true).toOption.map
+    (·.nodes.map (·.resname))) = some ["DA5", "DC", "DG3", "DC5", "DG", "DT3"] := by decide
+example : ((genParamsDsdna Tables.baseLibrary (.seq ["DA5", "DC", "DG3"]) false).toOption.map
+    (·.nodes.map (·.resname))) = some ["DA5", "DC", "DG3"] := by decide
 
 end PolyplyVerif.C19
